@@ -2,9 +2,6 @@
 C05 — helper lemmas (property theorems are in Props.lean).
 -/
 import PorepyVerif.C05.Model
-import Mathlib.Data.List.Basic
-import Mathlib.Data.List.Perm.Basic
-import Mathlib.Data.List.Nodup
 
 namespace PorepyVerif.C05
 
@@ -331,13 +328,13 @@ theorem pop_preinv (e : Env) (s : State) (i : Nat) (h : PreInv e s) :
     exact h.perm.filter _
   · show ((s.vars.filter (fun v => v.id != i)).map (·.id)).Pairwise (· < ·)
     exact List.Pairwise.sublist (List.Sublist.map _ List.filter_sublist) h.idsLt
-  · intro v hv; exact h.fresh v (List.mem_of_mem_filter hv)
-  · intro v hv; exact h.kindOk v (List.mem_of_mem_filter hv)
+  · intro v hv; exact h.fresh v ((List.mem_filter.mp hv).1)
+  · intro v hv; exact h.kindOk v ((List.mem_filter.mp hv).1)
   · intro v hv
     have hne : v.id ≠ i := by simpa using (List.mem_filter.mp hv).2
     show s.sizes.getD ((numberOf (s.numbers.filter (fun p => p.1 != i)) v.id).getD 0) 0 = varSize e v
     rw [numberOf_filter_ne _ _ _ hne]
-    exact h.sizeOk v (List.mem_of_mem_filter hv)
+    exact h.sizeOk v ((List.mem_filter.mp hv).1)
 
 theorem inv_store (e : Env) (s : State) (st : Store) (h : Inv e s) : Inv e { s with store := st } :=
   ⟨h.numbered, h.perm, h.idsLt, h.fresh, h.sizesLen, h.kindOk, h.sizeOk⟩
@@ -813,5 +810,612 @@ theorem removeLoop_keys (e : Env) (ids : List Nat) (s : State) (h : KeysUnique s
       apply keys_cluster
       exact List.Pairwise.sublist List.filter_sublist h
     · exact h
+
+/-! ### storage: `set_variable_values` / `get_variable_values` -/
+
+/-- number of values consumed by the blocks of `nums` that are selected -/
+def selSize (sizes sel : List Nat) (nums : List (Nat × Nat)) : Nat :=
+  ((nums.filter (fun p => p.1 ∈ sel)).map (fun p => sizes.getD p.2 0)).sum
+
+theorem selectedSize_eq (s : State) (sel : List Nat) : selectedSize s sel = selSize s.sizes sel s.numbers := rfl
+
+theorem selSize_cons_pos (sizes sel : List Nat) (p : Nat × Nat) (r : List (Nat × Nat)) (h : p.1 ∈ sel) :
+    selSize sizes sel (p :: r) = sizes.getD p.2 0 + selSize sizes sel r := by
+  simp [selSize, h]
+
+theorem selSize_cons_neg (sizes sel : List Nat) (p : Nat × Nat) (r : List (Nat × Nat)) (h : p.1 ∉ sel) :
+    selSize sizes sel (p :: r) = selSize sizes sel r := by
+  simp [selSize, h]
+
+theorem keyOf_eq_iff (v w : Var) (a b : Bool × Nat) :
+    keyOf v a = keyOf w b ↔ (v.grid = w.grid ∧ v.name = w.name ∧ a = b) := by
+  simp only [keyOf, Key.mk.injEq, Prod.ext_iff]
+  constructor
+  · rintro ⟨h1, h2, h3, h4⟩; exact ⟨h1, h3, h2, h4⟩
+  · rintro ⟨h1, h3, h2, h4⟩; exact ⟨h1, h2, h3, h4⟩
+
+theorem findVar_some (vars : List Var) (i : Nat) (v : Var) (h : findVar vars i = some v) :
+    v ∈ vars ∧ v.id = i := by
+  induction vars with
+  | nil => simp [findVar] at h
+  | cons a r ih =>
+    unfold findVar at h
+    by_cases ha : a.id = i
+    · simp only [ha, if_true, Option.some.injEq] at h
+      subst h; exact ⟨List.mem_cons_self, ha⟩
+    · simp only [ha, if_false] at h
+      exact ⟨List.mem_cons_of_mem _ (ih h).1, (ih h).2⟩
+
+theorem findVar_of_mem_ids (vars : List Var) (i : Nat) (h : i ∈ vars.map (·.id)) :
+    ∃ v, findVar vars i = some v := by
+  induction vars with
+  | nil => simp at h
+  | cons a r ih =>
+    unfold findVar
+    by_cases ha : a.id = i
+    · exact ⟨a, by simp [ha]⟩
+    · simp only [ha, if_false]
+      apply ih
+      simp only [List.map_cons, List.mem_cons] at h
+      rcases h with h | h
+      · exact absurd h.symm ha
+      · exact h
+
+theorem put_same (st : Store) (k : Key) (x : List Rat) : st.put k x k = some x := by simp [Store.put]
+
+theorem put_other (st : Store) (k k' : Key) (x : List Rat) (h : k' ≠ k) : st.put k x k' = st k' := by
+  simp [Store.put, h]
+
+theorem writeOne_frame (st : Store) (k : Key) (a : Bool) (x : List Rat) (k' : Key) (h : k' ≠ k) :
+    (writeOne st k a x).1 k' = st k' := by
+  unfold writeOne
+  cases a with
+  | false => simp [put_other _ _ _ _ h]
+  | true =>
+    simp only [if_true]
+    cases st k with
+    | none => rfl
+    | some old =>
+      simp only
+      cases addVec old x with
+      | none => rfl
+      | some r => simp [put_other _ _ _ _ h]
+
+theorem writeSlots_frame (v : Var) (a : Bool) (x : List Rat) (sl : List (Bool × Nat)) (st : Store) (k' : Key)
+    (h : ∀ s' ∈ sl, k' ≠ keyOf v s') : (writeSlots st v a x sl).1 k' = st k' := by
+  induction sl generalizing st with
+  | nil => rfl
+  | cons s0 rest ih =>
+    unfold writeSlots
+    have h0 := writeOne_frame st (keyOf v s0) a x k' (h s0 List.mem_cons_self)
+    rcases hw : writeOne st (keyOf v s0) a x with ⟨st1, _ | err⟩
+    · rw [hw] at h0
+      simp only
+      rw [ih st1 (fun s' hs => h s' (List.mem_cons_of_mem _ hs))]
+      exact h0
+    · rw [hw] at h0
+      exact h0
+
+theorem writeOne_ok (st : Store) (k : Key) (a : Bool) (x : List Rat)
+    (hadd : a = true → ∃ o, st k = some o ∧ o.length = x.length) :
+    writeOne st k a x =
+      (st.put k (if a then List.zipWith (· + ·) ((st k).getD []) x else x), none) := by
+  unfold writeOne
+  cases a with
+  | false => simp
+  | true =>
+    obtain ⟨o, ho, hlen⟩ := hadd rfl
+    simp [ho, addVec, hlen]
+
+theorem writeSlots_spec (v : Var) (a : Bool) (x : List Rat) (sl : List (Bool × Nat)) (hn : sl.Nodup)
+    (st : Store) (hadd : a = true → ∀ s' ∈ sl, ∃ o, st (keyOf v s') = some o ∧ o.length = x.length) :
+    (writeSlots st v a x sl).2 = none ∧
+    ∀ s' ∈ sl, (writeSlots st v a x sl).1 (keyOf v s') =
+      some (if a then List.zipWith (· + ·) ((st (keyOf v s')).getD []) x else x) := by
+  induction sl generalizing st with
+  | nil => exact ⟨rfl, by simp⟩
+  | cons s0 rest ih =>
+    have hs0 : s0 ∉ rest := (List.nodup_cons.mp hn).1
+    have hne : ∀ s' ∈ rest, keyOf v s' ≠ keyOf v s0 := by
+      intro s' hs' he
+      have := ((keyOf_eq_iff v v s' s0).mp he).2.2
+      exact hs0 (this ▸ hs')
+    have hw := writeOne_ok st (keyOf v s0) a x (fun ha => hadd ha s0 List.mem_cons_self)
+    have hstep : writeSlots st v a x (s0 :: rest) =
+        writeSlots (st.put (keyOf v s0) (if a then List.zipWith (· + ·) ((st (keyOf v s0)).getD []) x else x))
+          v a x rest := by
+      rw [writeSlots, hw]
+    rw [hstep]
+    obtain ⟨i1, i2⟩ := ih (List.nodup_cons.mp hn).2
+      (st.put (keyOf v s0) (if a then List.zipWith (· + ·) ((st (keyOf v s0)).getD []) x else x)) (by
+      intro ha s' hs'
+      rw [put_other _ _ _ _ (hne s' hs')]
+      exact hadd ha s' (List.mem_cons_of_mem _ hs'))
+    refine ⟨i1, ?_⟩
+    intro s' hs'
+    rcases List.mem_cons.mp hs' with rfl | hs'
+    · rw [writeSlots_frame v a x rest _ _ (fun s'' hs'' => (hne s'' hs'').symm), put_same]
+    · rw [i2 s' hs', put_other _ _ _ _ (hne s' hs')]
+
+/-! equation lemmas for the two loops -/
+
+theorem setLoop_cons_neg (vars : List Var) (sizes sel : List Nat) (slots : Except Err (List (Bool × Nat)))
+    (a : Bool) (values : List Rat) (st : Store) (start : Nat) (p : Nat × Nat) (rest : List (Nat × Nat))
+    (hp : p.1 ∉ sel) :
+    setLoop vars sizes sel slots a values st start (p :: rest) =
+      setLoop vars sizes sel slots a values st start rest := by
+  rw [setLoop, if_neg hp]
+
+theorem setLoop_cons_pos (vars : List Var) (sizes sel : List Nat) (sl : List (Bool × Nat))
+    (a : Bool) (values : List Rat) (st : Store) (start : Nat) (p : Nat × Nat) (rest : List (Nat × Nat))
+    (hp : p.1 ∈ sel) (v : Var) (hv : findVar vars p.1 = some v)
+    (hw : (writeSlots st v a ((values.drop start).take (sizes.getD p.2 0)) sl).2 = none) :
+    setLoop vars sizes sel (.ok sl) a values st start (p :: rest) =
+      setLoop vars sizes sel (.ok sl) a values
+        (writeSlots st v a ((values.drop start).take (sizes.getD p.2 0)) sl).1
+        (start + sizes.getD p.2 0) rest := by
+  rw [setLoop, if_pos hp]
+  simp only [hv]
+  rcases hws : writeSlots st v a ((values.drop start).take (sizes.getD p.2 0)) sl with ⟨st1, _ | err⟩
+  · rfl
+  · rw [hws] at hw; cases hw
+
+theorem getLoop_cons_neg (vars : List Var) (st : Store) (sel : List Nat) (slot : Except Err (Bool × Nat))
+    (p : Nat × Nat) (rest : List (Nat × Nat)) (hp : p.1 ∉ sel) :
+    getLoop vars st sel slot (p :: rest) = getLoop vars st sel slot rest := by
+  rw [getLoop, if_neg hp]
+
+theorem getLoop_cons_pos (vars : List Var) (st : Store) (sel : List Nat) (slot : Bool × Nat)
+    (p : Nat × Nat) (rest : List (Nat × Nat)) (hp : p.1 ∈ sel) (v : Var) (hv : findVar vars p.1 = some v)
+    (x : List Rat) (hx : st (keyOf v slot) = some x) :
+    getLoop vars st sel (.ok slot) (p :: rest) =
+      match getLoop vars st sel (.ok slot) rest with
+      | .error err => .error err
+      | .ok l => .ok (x ++ l) := by
+  rw [getLoop, if_pos hp]
+  simp only [hv, hx]
+  cases getLoop vars st sel (.ok slot) rest <;> rfl
+
+theorem setLoop_frame (vars : List Var) (sizes sel : List Nat) (slots : Except Err (List (Bool × Nat)))
+    (a : Bool) (values : List Rat) (k' : Key) (nums : List (Nat × Nat)) (st : Store) (start : Nat)
+    (h : ∀ p ∈ nums, p.1 ∈ sel → ∀ v, findVar vars p.1 = some v → ∀ sl, slots = .ok sl →
+      ∀ s' ∈ sl, k' ≠ keyOf v s') :
+    (setLoop vars sizes sel slots a values st start nums).1 k' = st k' := by
+  induction nums generalizing st start with
+  | nil => rfl
+  | cons p rest ih =>
+    have hrest : ∀ q ∈ rest, q.1 ∈ sel → ∀ v, findVar vars q.1 = some v → ∀ sl, slots = .ok sl →
+        ∀ s' ∈ sl, k' ≠ keyOf v s' := fun q hq => h q (List.mem_cons_of_mem _ hq)
+    by_cases hp : p.1 ∈ sel
+    · rw [setLoop, if_pos hp]
+      cases hv : findVar vars p.1 with
+      | none => rfl
+      | some v =>
+        cases slots with
+        | error err => rfl
+        | ok sl =>
+          simp only
+          have hf := writeSlots_frame v a ((values.drop start).take (sizes.getD p.2 0)) sl st k'
+            (h p List.mem_cons_self hp v hv sl rfl)
+          rcases hws : writeSlots st v a ((values.drop start).take (sizes.getD p.2 0)) sl with ⟨st1, _ | err⟩
+          · rw [hws] at hf
+            simp only
+            rw [ih st1 _ hrest]
+            exact hf
+          · rw [hws] at hf
+            exact hf
+    · rw [setLoop_cons_neg _ _ _ _ _ _ _ _ _ _ hp]
+      exact ih st start hrest
+
+theorem getLoop_congr (vars : List Var) (sel : List Nat) (slot : Bool × Nat) (st1 st2 : Store)
+    (nums : List (Nat × Nat))
+    (h : ∀ p ∈ nums, p.1 ∈ sel → ∀ v, findVar vars p.1 = some v → st1 (keyOf v slot) = st2 (keyOf v slot)) :
+    getLoop vars st1 sel (.ok slot) nums = getLoop vars st2 sel (.ok slot) nums := by
+  induction nums with
+  | nil => rfl
+  | cons p rest ih =>
+    have ihr := ih (fun q hq => h q (List.mem_cons_of_mem _ hq))
+    by_cases hp : p.1 ∈ sel
+    · rw [getLoop, getLoop, if_pos hp, if_pos hp]
+      cases hv : findVar vars p.1 with
+      | none => rfl
+      | some v =>
+        simp only
+        rw [h p List.mem_cons_self hp v hv, ihr]
+    · rw [getLoop_cons_neg _ _ _ _ _ _ hp, getLoop_cons_neg _ _ _ _ _ _ hp]
+      exact ihr
+
+theorem getLoop_sel_congr (vars : List Var) (st : Store) (sel sel' : List Nat)
+    (slot : Except Err (Bool × Nat)) (nums : List (Nat × Nat)) (h : ∀ i, i ∈ sel ↔ i ∈ sel') :
+    getLoop vars st sel slot nums = getLoop vars st sel' slot nums := by
+  induction nums with
+  | nil => rfl
+  | cons p rest ih =>
+    by_cases hp : p.1 ∈ sel
+    · have hp' := (h p.1).mp hp
+      rw [getLoop, getLoop, if_pos hp, if_pos hp', ih]
+    · have hp' : p.1 ∉ sel' := fun x => hp ((h p.1).mpr x)
+      rw [getLoop_cons_neg _ _ _ _ _ _ hp, getLoop_cons_neg _ _ _ _ _ _ hp', ih]
+
+theorem setLoop_sel_congr (vars : List Var) (sizes sel sel' : List Nat)
+    (slots : Except Err (List (Bool × Nat))) (a : Bool) (values : List Rat) (nums : List (Nat × Nat))
+    (st : Store) (start : Nat) (h : ∀ i, i ∈ sel ↔ i ∈ sel') :
+    setLoop vars sizes sel slots a values st start nums = setLoop vars sizes sel' slots a values st start nums := by
+  induction nums generalizing st start with
+  | nil => rfl
+  | cons p rest ih =>
+    by_cases hp : p.1 ∈ sel
+    · have hp' := (h p.1).mp hp
+      rw [setLoop, setLoop, if_pos hp, if_pos hp']
+      cases findVar vars p.1 with
+      | none => rfl
+      | some v =>
+        cases slots with
+        | error err => rfl
+        | ok sl =>
+          simp only
+          rcases writeSlots st v a ((values.drop start).take (sizes.getD p.2 0)) sl with ⟨st1, _ | err⟩
+          · exact ih st1 _
+          · rfl
+    · have hp' : p.1 ∉ sel' := fun x => hp ((h p.1).mpr x)
+      rw [setLoop_cons_neg _ _ _ _ _ _ _ _ _ _ hp, setLoop_cons_neg _ _ _ _ _ _ _ _ _ _ hp', ih]
+
+theorem take_drop_glue (values : List Rat) (start n m : Nat) :
+    (values.drop start).take n ++ (values.drop (start + n)).take m = (values.drop start).take (n + m) := by
+  rw [List.take_add, List.drop_drop]
+
+def okOr (r : Except Err (List Rat)) : List Rat :=
+  match r with
+  | .ok l => l
+  | .error _ => []
+
+/-- set-then-get on the level of the two loops, overwrite (`a = false`) and additive (`a = true`) -/
+theorem set_get_loop (vars : List Var) (sizes sel : List Nat) (sl : List (Bool × Nat)) (a : Bool)
+    (values : List Rat) (slot : Bool × Nat) (hsl : sl.Nodup) (hslot : slot ∈ sl)
+    (nums : List (Nat × Nat)) (hN1 : (nums.map (·.1)).Nodup)
+    (hN2 : ∀ p ∈ nums, p.1 ∈ sel → ∃ v, findVar vars p.1 = some v)
+    (hN3 : ∀ p ∈ nums, ∀ q ∈ nums, p.1 ≠ q.1 → ∀ v w, findVar vars p.1 = some v →
+      findVar vars q.1 = some w → ¬ (v.name = w.name ∧ v.grid = w.grid))
+    (st : Store) (start : Nat) (hlen : start + selSize sizes sel nums ≤ values.length) (old : List Rat)
+    (hadd : a = true → ∀ p ∈ nums, p.1 ∈ sel → ∀ v, findVar vars p.1 = some v → ∀ s' ∈ sl,
+      ∃ o, st (keyOf v s') = some o ∧ o.length = sizes.getD p.2 0)
+    (hold : a = true → getLoop vars st sel (.ok slot) nums = .ok old) :
+    (setLoop vars sizes sel (.ok sl) a values st start nums).2 = .ok (start + selSize sizes sel nums) ∧
+    getLoop vars (setLoop vars sizes sel (.ok sl) a values st start nums).1 sel (.ok slot) nums =
+      .ok (if a then List.zipWith (· + ·) old ((values.drop start).take (selSize sizes sel nums))
+           else (values.drop start).take (selSize sizes sel nums)) := by
+  induction nums generalizing st start old with
+  | nil =>
+    refine ⟨by simp [setLoop, selSize], ?_⟩
+    simp [setLoop, getLoop, selSize]
+  | cons p rest ih =>
+    have hN1' : (rest.map (·.1)).Nodup := by
+      simp only [List.map_cons] at hN1; exact (List.nodup_cons.mp hN1).2
+    have hpr : ∀ q ∈ rest, p.1 ≠ q.1 := by
+      intro q hq he
+      simp only [List.map_cons] at hN1
+      exact (List.nodup_cons.mp hN1).1 (he ▸ List.mem_map.mpr ⟨q, hq, rfl⟩)
+    have hN2' : ∀ q ∈ rest, q.1 ∈ sel → ∃ v, findVar vars q.1 = some v :=
+      fun q hq => hN2 q (List.mem_cons_of_mem _ hq)
+    have hN3' : ∀ q ∈ rest, ∀ q' ∈ rest, q.1 ≠ q'.1 → ∀ v w, findVar vars q.1 = some v →
+        findVar vars q'.1 = some w → ¬ (v.name = w.name ∧ v.grid = w.grid) :=
+      fun q hq q' hq' => hN3 q (List.mem_cons_of_mem _ hq) q' (List.mem_cons_of_mem _ hq')
+    by_cases hp : p.1 ∈ sel
+    · -- the head block is selected
+      obtain ⟨v, hv⟩ := hN2 p List.mem_cons_self hp
+      have hss := selSize_cons_pos sizes sel p rest hp
+      generalize hn : sizes.getD p.2 0 = n at hss
+      have hloclen : ((values.drop start).take n).length = n := by
+        rw [List.length_take, List.length_drop]; omega
+      -- keys of the later blocks differ from the keys of the head block
+      have hkeys : ∀ q ∈ rest, ∀ w, findVar vars q.1 = some w → ∀ s1 s2, keyOf w s1 ≠ keyOf v s2 := by
+        intro q hq w hw s1 s2 he
+        have := (keyOf_eq_iff w v s1 s2).mp he
+        exact hN3 p List.mem_cons_self q (List.mem_cons_of_mem _ hq) (hpr q hq) v w hv hw
+          ⟨this.2.1.symm, this.1.symm⟩
+      have hW := writeSlots_spec v a ((values.drop start).take n) sl hsl st (by
+        intro ha s' hs'
+        obtain ⟨o, ho, hol⟩ := hadd ha p List.mem_cons_self hp v hv s' hs'
+        exact ⟨o, ho, by rw [hol, hn, hloclen]⟩)
+      have hstep := setLoop_cons_pos vars sizes sel sl a values st start p rest hp v hv (by rw [hn]; exact hW.1)
+      rw [hn] at hstep
+      generalize hst1 : (writeSlots st v a ((values.drop start).take n) sl).1 = st1 at hstep hW
+      have hfr1 : ∀ q ∈ rest, ∀ w, findVar vars q.1 = some w → ∀ s', st1 (keyOf w s') = st (keyOf w s') := by
+        intro q hq w hw s'
+        rw [← hst1]
+        exact writeSlots_frame v a _ sl st _ (fun s2 _ => hkeys q hq w hw s' s2)
+      -- the tail of the old values
+      have holdsplit : a = true → ∃ o, st (keyOf v slot) = some o ∧ o.length = n ∧
+          getLoop vars st sel (.ok slot) rest = .ok (okOr (getLoop vars st sel (.ok slot) rest)) ∧
+          old = o ++ okOr (getLoop vars st sel (.ok slot) rest) := by
+        intro ha
+        obtain ⟨o, ho, hol⟩ := hadd ha p List.mem_cons_self hp v hv slot hslot
+        have := hold ha
+        rw [getLoop_cons_pos vars st sel slot p rest hp v hv o ho] at this
+        cases hr : getLoop vars st sel (.ok slot) rest with
+        | error err => rw [hr] at this; cases this
+        | ok oldr =>
+          rw [hr] at this
+          simp only [Except.ok.injEq] at this
+          exact ⟨o, ho, by rw [hol, hn], rfl, this.symm⟩
+      -- induction hypothesis on the tail, from the store after the head was written
+      have IH := ih hN1' hN2' hN3' st1 (start + n) (by omega)
+        (okOr (getLoop vars st sel (.ok slot) rest))
+        (by
+          intro ha q hq hqs w hw s' hs'
+          rw [hfr1 q hq w hw s']
+          exact hadd ha q (List.mem_cons_of_mem _ hq) hqs w hw s' hs')
+        (by
+          intro ha
+          rw [getLoop_congr vars sel slot st1 st rest (fun q hq _ w hw => hfr1 q hq w hw slot)]
+          obtain ⟨o, _, _, h3, _⟩ := holdsplit ha
+          exact h3)
+      rw [hstep]
+      generalize hst' : setLoop vars sizes sel (.ok sl) a values st1 (start + n) rest = R at IH
+      obtain ⟨IH1, IH2⟩ := IH
+      refine ⟨by rw [IH1, hss]; congr 1; omega, ?_⟩
+      -- the head's slot survives the writes of the tail
+      have hhead : R.1 (keyOf v slot) = st1 (keyOf v slot) := by
+        rw [← hst']
+        apply setLoop_frame
+        intro q hq _ w hw sl' hsl' s' _
+        exact (hkeys q hq w hw s' slot).symm
+      have hval := hW.2 slot hslot
+      rw [getLoop_cons_pos vars R.1 sel slot p rest hp v hv _ (hhead.trans hval), IH2]
+      simp only [Except.ok.injEq]
+      rw [hss]
+      rcases Bool.eq_false_or_eq_true a with ha | ha
+      · obtain ⟨o, hc1, hc2, hc3, hc4⟩ := holdsplit ha
+        subst ha
+        simp only [if_true]
+        rw [hc1, Option.getD_some]
+        conv => rhs; rw [hc4, ← take_drop_glue values start n _]
+        rw [List.zipWith_append (by rw [hc2, hloclen])]
+      · subst ha
+        simp only [Bool.false_eq_true, if_false]
+        exact take_drop_glue values start n _
+    · -- the head block is not selected
+      have hss := selSize_cons_neg sizes sel p rest hp
+      rw [setLoop_cons_neg _ _ _ _ _ _ _ _ _ _ hp, hss]
+      have IH := ih hN1' hN2' hN3' st start (by omega) old
+        (fun ha q hq => hadd ha q (List.mem_cons_of_mem _ hq))
+        (fun ha => by rw [← getLoop_cons_neg vars st sel (.ok slot) p rest hp]; exact hold ha)
+      refine ⟨IH.1, ?_⟩
+      rw [getLoop_cons_neg _ _ _ _ _ _ hp]
+      exact IH.2
+
+/-! ### from the invariant to the hypotheses of the loop lemmas -/
+
+theorem pairwise_symm_forall {α : Type} {R : α → α → Prop} (hs : ∀ a b, R a b → R b a) {l : List α}
+    (hp : l.Pairwise R) : ∀ a ∈ l, ∀ b ∈ l, a ≠ b → R a b := by
+  induction l with
+  | nil => intro a ha; cases ha
+  | cons x l ih =>
+    obtain ⟨h1, h2⟩ := List.pairwise_cons.mp hp
+    intro a ha b hb hab
+    rcases List.mem_cons.mp ha with ha' | ha' <;> rcases List.mem_cons.mp hb with hb' | hb'
+    · exact absurd (ha'.trans hb'.symm) hab
+    · rw [ha']; exact h1 b hb'
+    · rw [hb']; exact hs _ _ (h1 a ha')
+    · exact ih h2 a ha' b hb' hab
+
+theorem numberOf_of_mem (nums : List (Nat × Nat)) (hn : (nums.map (·.1)).Nodup) (p : Nat × Nat)
+    (hp : p ∈ nums) : numberOf nums p.1 = some p.2 := by
+  induction nums with
+  | nil => cases hp
+  | cons q r ih =>
+    simp only [List.map_cons] at hn
+    rcases List.mem_cons.mp hp with rfl | hp'
+    · simp [numberOf]
+    · have hne : ¬ q.1 = p.1 := by
+        intro e
+        exact (List.nodup_cons.mp hn).1 (e ▸ List.mem_map.mpr ⟨p, hp', rfl⟩)
+      simp only [numberOf, hne, if_false]
+      exact ih (List.nodup_cons.mp hn).2 hp'
+
+theorem inv_N2 {e : Env} {s : State} (h : Inv e s) :
+    ∀ p ∈ s.numbers, ∃ v, findVar s.vars p.1 = some v := by
+  intro p hp
+  exact findVar_of_mem_ids _ _ (h.perm.mem_iff.mp (List.mem_map.mpr ⟨p, hp, rfl⟩))
+
+theorem inv_N3 {e : Env} {s : State} (_h : Inv e s) (hK : KeysUnique s) (i j : Nat) (hij : i ≠ j)
+    (v w : Var) (hv : findVar s.vars i = some v) (hw : findVar s.vars j = some w) :
+    ¬ (v.name = w.name ∧ v.grid = w.grid) := by
+  obtain ⟨hv1, hv2⟩ := findVar_some _ _ _ hv
+  obtain ⟨hw1, hw2⟩ := findVar_some _ _ _ hw
+  have hne : v ≠ w := by
+    intro e; subst e; exact hij (hv2.symm.trans hw2)
+  have hK' : s.vars.Pairwise (fun v w => ¬ (v.name = w.name ∧ v.grid = w.grid)) := hK
+  exact pairwise_symm_forall (fun a b hab hba => hab ⟨hba.1.symm, hba.2.symm⟩) hK' v hv1 w hw1 hne
+
+theorem inv_size_of_block {e : Env} {s : State} (h : Inv e s) (p : Nat × Nat) (hp : p ∈ s.numbers)
+    (v : Var) (hv : findVar s.vars p.1 = some v) : s.sizes.getD p.2 0 = varSize e v := by
+  obtain ⟨hv1, hv2⟩ := findVar_some _ _ _ hv
+  have := h.sizeOk v hv1
+  unfold sizeOf at this
+  rw [hv2, numberOf_of_mem _ (inv_nodup_ids h) p hp] at this
+  simpa using this
+
+theorem map_snd_numberFrom (a : Nat) (l : List Nat) : (numberFrom a l).map (·.2) = List.range' a l.length := by
+  induction l generalizing a with
+  | nil => rfl
+  | cons i r ih => simp [numberFrom, ih, List.range'_succ]
+
+/-! ### values of a subset come in global order: `get(sel) = projection(sel) · get(all)` -/
+
+/-- the selected global indices, block by block in block order -/
+def selIdx (sizes sel : List Nat) (nums : List (Nat × Nat)) : List Nat :=
+  (nums.filter (fun p => p.1 ∈ sel)).flatMap (fun p => blockRange sizes p.2)
+
+theorem selIdx_cons_pos (sizes sel : List Nat) (p : Nat × Nat) (r : List (Nat × Nat)) (h : p.1 ∈ sel) :
+    selIdx sizes sel (p :: r) = blockRange sizes p.2 ++ selIdx sizes sel r := by
+  simp [selIdx, h]
+
+theorem selIdx_cons_neg (sizes sel : List Nat) (p : Nat × Nat) (r : List (Nat × Nat)) (h : p.1 ∉ sel) :
+    selIdx sizes sel (p :: r) = selIdx sizes sel r := by
+  simp [selIdx, h]
+
+theorem applyProj_append (a b : List Nat) (x : List Rat) :
+    applyProj (a ++ b) x = applyProj a x ++ applyProj b x := by
+  simp [applyProj]
+
+theorem applyProj_range'_mid (pre o tail : List Rat) :
+    applyProj (List.range' pre.length o.length) (pre ++ (o ++ tail)) = o := by
+  apply List.ext_getElem
+  · simp [applyProj]
+  · intro j h1 h2
+    simp only [applyProj, List.getElem_map, List.getElem_range', Nat.one_mul, List.getD_eq_getElem?_getD]
+    rw [List.getElem?_append_right (by omega)]
+    have : pre.length + j - pre.length = j := by omega
+    rw [this, List.getElem?_append_left h2, List.getElem?_eq_getElem h2]
+    rfl
+
+theorem getLoop_ok_cons (vars : List Var) (st : Store) (sel : List Nat) (slot : Bool × Nat)
+    (p : Nat × Nat) (rest : List (Nat × Nat)) (hp : p.1 ∈ sel) (v : Var) (hv : findVar vars p.1 = some v)
+    (o : List Rat) (ho : st (keyOf v slot) = some o) (xs : List Rat)
+    (h : getLoop vars st sel (.ok slot) (p :: rest) = .ok xs) :
+    ∃ xs', getLoop vars st sel (.ok slot) rest = .ok xs' ∧ xs = o ++ xs' := by
+  rw [getLoop_cons_pos vars st sel slot p rest hp v hv o ho] at h
+  cases hr : getLoop vars st sel (.ok slot) rest with
+  | error err => rw [hr] at h; cases h
+  | ok l =>
+    rw [hr] at h
+    simp only [Except.ok.injEq] at h
+    exact ⟨l, rfl, h.symm⟩
+
+/-- loop level: with `pre` the values of the blocks before block `k`, the values read for `sel` are
+    the global vector `pre ++ gs` at the selected indices -/
+theorem get_sel_eq_applyProj (vars : List Var) (sizes sel selAll : List Nat) (slot : Bool × Nat) (st : Store)
+    (ids : List Nat) (k : Nat) (hk : k + ids.length ≤ sizes.length) (hall : ∀ i ∈ ids, i ∈ selAll)
+    (hst : ∀ j (hj : j < ids.length), ∃ v o, findVar vars ids[j] = some v ∧
+      st (keyOf v slot) = some o ∧ o.length = sizes.getD (k + j) 0)
+    (pre gs xs : List Rat) (hpre : pre.length = cum sizes k)
+    (hg : getLoop vars st selAll (.ok slot) (numberFrom k ids) = .ok gs)
+    (hx : getLoop vars st sel (.ok slot) (numberFrom k ids) = .ok xs) :
+    pre.length + gs.length = cum sizes (k + ids.length) ∧
+    xs = applyProj (selIdx sizes sel (numberFrom k ids)) (pre ++ gs) := by
+  induction ids generalizing k pre gs xs with
+  | nil =>
+    simp only [numberFrom, getLoop, Except.ok.injEq] at hg hx
+    subst hg hx
+    simp [hpre, selIdx, applyProj, numberFrom]
+  | cons i r ih =>
+    obtain ⟨v, o, hv, ho, hol⟩ := hst 0 (by simp)
+    simp only [List.getElem_cons_zero, Nat.add_zero] at hv hol
+    have hklt : k < sizes.length := by simp at hk; omega
+    have hsz : sizes.getD k 0 = sizes[k] := by
+      simp [List.getD_eq_getElem?_getD, List.getElem?_eq_getElem hklt]
+    simp only [numberFrom] at hg hx ⊢
+    obtain ⟨gs', hg', rfl⟩ := getLoop_ok_cons vars st selAll slot (i, k) _ (hall i List.mem_cons_self) v hv o ho gs hg
+    have hpre' : (pre ++ o).length = cum sizes (k + 1) := by
+      rw [List.length_append, hpre, hol, cum_succ sizes k hklt, hsz]
+    have hst' : ∀ j (hj : j < r.length), ∃ v o, findVar vars r[j] = some v ∧
+        st (keyOf v slot) = some o ∧ o.length = sizes.getD (k + 1 + j) 0 := by
+      intro j hj
+      obtain ⟨w, o', h1, h2, h3⟩ := hst (j + 1) (by simpa using hj)
+      refine ⟨w, o', by simpa using h1, h2, ?_⟩
+      rw [h3]; congr 1; omega
+    have hk' : k + 1 + r.length ≤ sizes.length := by simp at hk; omega
+    have hall' : ∀ i ∈ r, i ∈ selAll := fun j hj => hall j (List.mem_cons_of_mem _ hj)
+    have e1 : k + (i :: r).length = k + 1 + r.length := by simp; omega
+    by_cases hp : i ∈ sel
+    · obtain ⟨xs', hx', rfl⟩ := getLoop_ok_cons vars st sel slot (i, k) _ hp v hv o ho xs hx
+      obtain ⟨l1, l2⟩ := ih (k + 1) hk' hall' hst' (pre ++ o) gs' xs' hpre' hg' hx'
+      refine ⟨?_, ?_⟩
+      · rw [e1, ← l1]; simp; omega
+      · rw [selIdx_cons_pos _ _ _ _ hp, applyProj_append, l2, List.append_assoc]
+        congr 1
+        show o = applyProj (blockRange sizes k) (pre ++ (o ++ gs'))
+        rw [blockRange_eq sizes k hklt, ← hpre, ← hol, applyProj_range'_mid]
+    · rw [getLoop_cons_neg _ _ _ _ _ _ hp] at hx
+      obtain ⟨l1, l2⟩ := ih (k + 1) hk' hall' hst' (pre ++ o) gs' xs hpre' hg' hx
+      refine ⟨?_, ?_⟩
+      · rw [e1, ← l1]; simp; omega
+      · rw [selIdx_cons_neg _ _ _ _ hp, l2, List.append_assoc]
+
+/-- the selected indices in block order are increasing -/
+theorem selIdx_sorted (sizes sel : List Nat) (ids : List Nat) (k : Nat) :
+    (selIdx sizes sel (numberFrom k ids)).Pairwise (· ≤ ·) ∧
+    ∀ d ∈ selIdx sizes sel (numberFrom k ids), cum sizes k ≤ d := by
+  induction ids generalizing k with
+  | nil => simp [selIdx, numberFrom]
+  | cons i r ih =>
+    obtain ⟨i1, i2⟩ := ih (k + 1)
+    have hge : ∀ d ∈ selIdx sizes sel (numberFrom (k + 1) r), cum sizes k ≤ d :=
+      fun d hd => Nat.le_trans (cum_le_succ sizes k) (i2 d hd)
+    simp only [numberFrom]
+    by_cases hp : i ∈ sel
+    · rw [selIdx_cons_pos _ _ _ _ hp]
+      refine ⟨?_, ?_⟩
+      · rw [List.pairwise_append]
+        refine ⟨?_, i1, ?_⟩
+        · exact (List.pairwise_lt_range' (s := cum sizes k) (n := cum sizes (k + 1) - cum sizes k)).imp
+            (fun h => Nat.le_of_lt h)
+        · intro a ha b hb
+          have := (mem_blockRange sizes k a).mp ha
+          have := i2 b hb
+          omega
+      · intro d hd
+        rcases List.mem_append.mp hd with hd | hd
+        · exact ((mem_blockRange sizes k d).mp hd).1
+        · exact hge d hd
+    · rw [selIdx_cons_neg _ _ _ _ hp]
+      exact ⟨i1, hge⟩
+
+theorem dofsOfIds_eq_flatMap (s : State) (sel l : List Nat) (h : dofsOfIds s sel = .ok l) :
+    l = sel.flatMap (fun i => blockRange s.sizes ((numberOf s.numbers i).getD 0)) := by
+  induction sel generalizing l with
+  | nil => simp only [dofsOfIds, Except.ok.injEq] at h; subst h; rfl
+  | cons i r ih =>
+    unfold dofsOfIds at h
+    cases hb : numberOf s.numbers i with
+    | none => simp [hb] at h
+    | some b =>
+      cases hr : dofsOfIds s r with
+      | error err => simp [hb, hr] at h
+      | ok l' =>
+        simp only [hb, hr, Except.ok.injEq] at h
+        subst h
+        simp [hb, ih l' hr]
+
+theorem flatMap_congr' {α β : Type} (l : List α) (f g : α → List β) (h : ∀ x ∈ l, f x = g x) :
+    l.flatMap f = l.flatMap g := by
+  induction l with
+  | nil => rfl
+  | cons a r ih =>
+    simp only [List.flatMap_cons]
+    rw [h a List.mem_cons_self, ih (fun x hx => h x (List.mem_cons_of_mem _ hx))]
+
+theorem selIdx_eq_flatMap (sizes sel : List Nat) (nums : List (Nat × Nat)) (hn : (nums.map (·.1)).Nodup) :
+    selIdx sizes sel nums =
+      ((nums.map (·.1)).filter (fun i => i ∈ sel)).flatMap
+        (fun i => blockRange sizes ((numberOf nums i).getD 0)) := by
+  unfold selIdx
+  rw [show (nums.map (·.1)).filter (fun i => decide (i ∈ sel))
+      = (nums.filter (fun p => decide (p.1 ∈ sel))).map (·.1) from by rw [List.filter_map]; rfl]
+  rw [List.flatMap_map]
+  apply flatMap_congr'
+  intro p hp
+  rw [numberOf_of_mem nums hn p (List.mem_filter.mp hp).1]
+  rfl
+
+/-- `np.sort(dofs_of(sel))` is the list of selected indices in block order -/
+theorem isort_dofs_eq_selIdx {e : Env} {s : State} (hI : Inv e s) (sel l : List Nat) (hsel : sel.Nodup)
+    (hreg : ∀ i ∈ sel, i ∈ s.numbers.map (·.1)) (hl : dofsOfIds s sel = .ok l) :
+    isort l = selIdx s.sizes sel s.numbers := by
+  have hn := inv_nodup_ids hI
+  apply List.Perm.eq_of_pairwise (le := (· ≤ ·))
+  · intro a b _ _ h1 h2; exact Nat.le_antisymm h1 h2
+  · exact sorted_isort l
+  · have := (selIdx_sorted s.sizes sel (s.numbers.map (·.1)) 0).1
+    rw [← hI.numbered] at this
+    exact this
+  · refine (perm_isort l).trans ?_
+    rw [dofsOfIds_eq_flatMap s sel l hl, selIdx_eq_flatMap s.sizes sel s.numbers hn]
+    apply List.Perm.flatMap_right
+    rw [List.perm_ext_iff_of_nodup hsel (hn.filter _)]
+    intro i
+    simp only [List.mem_filter, decide_eq_true_eq]
+    exact ⟨fun h => ⟨hreg i h, h⟩, fun h => h.2⟩
 
 end PorepyVerif.C05
